@@ -406,11 +406,15 @@ type request struct {
 	hasPass   bool
 	cpeID     string
 	behaviour string // "", "reqblock", "respblock", "ratelimited"
+
+	// ecs is the client-subnet option the request carries ("" = none): what
+	// the client says about itself must not influence what it may do.
+	ecs string
 }
 
 func (r *request) String() string {
-	return fmt.Sprintf("%s client=%s local=%s %s/%d sni=%q url=%q user=%q pass=%q(%v) cpe=%q", r.srvKind, r.client, r.local,
-		r.name, r.qtype, r.sni, r.urlPath, r.user, r.pass, r.hasPass, r.cpeID)
+	return fmt.Sprintf("%s client=%s local=%s %s/%d sni=%q url=%q user=%q pass=%q(%v) cpe=%q ecs=%q", r.srvKind, r.client, r.local,
+		r.name, r.qtype, r.sni, r.urlPath, r.user, r.pass, r.hasPass, r.cpeID, r.ecs)
 }
 
 // identify is the reference for C03, written from the statement: the device
@@ -874,6 +878,10 @@ func serve(w *world.World, r *request, id uint16) (out *world.Writer, err error)
 		req.IsEdns0().Option = append(req.IsEdns0().Option, &dns.EDNS0_LOCAL{Code: 65074, Data: []byte(r.cpeID)})
 	}
 
+	if r.ecs != "" {
+		addECS(req, r.ecs)
+	}
+
 	info := &dnsserver.RequestInfo{TLSServerName: r.sni}
 	if r.srv.Protocol == agd.ProtoDoH {
 		info.URL = &url.URL{Path: r.urlPath}
@@ -1012,6 +1020,10 @@ func genRequest(t *kernel.Tape, u *universe, servers map[string]*agd.Server, kin
 		if t.Chance(1, 2, "cpe-on-dnscrypt") {
 			r.cpeID = kernel.Pick(t, ids[1:6], "cpe")
 		}
+	}
+
+	if t.Chance(1, 6, "client-subnet-option") {
+		r.ecs = kernel.Pick(t, []string{"100.70.0.0/24", "100.71.0.0/24", "203.0.113.0/24", "198.51.100.0/24", "0.0.0.0/0"}, "ecs")
 	}
 
 	if prop == "C15" {
